@@ -327,6 +327,7 @@ type c13H struct {
 	bcryptMx int
 	notes    map[string]int
 	single   map[string]c13Run // runs of single-element documents (elems)
+	used     map[string]bool   // footprint leaves at which a real step made a difference
 	lastOne  c13Run            // the one-run result of the last doc call
 }
 
@@ -1128,6 +1129,7 @@ func TestVerifC13(t *testing.T) {
 		}
 		h.doc(c13Marshal(m), fmt.Sprintf("golden v%d; %s", step, strings.Join(descs, "; ")), cls, splits, mem)
 	}
+	h.leavesReport()
 	for k, v := range h.notes {
 		out.Note(k, v)
 	}
